@@ -901,7 +901,7 @@ class C08:
     MAX_ENUM = 40
 
     def configs(self, tier):
-        return ["checked", "release", "checked+hooks"]
+        return ["checked", "release", "checked+hooks", "release+debug_stress_gc"]
 
     def plan(self, tier):
         return 6000 if tier == "quick" else 300000
@@ -1019,11 +1019,16 @@ class C08:
             # a slice of the plans also runs with collect-at-every-allocation + quarantine: values in flight (thrown objects,
             # returned objects parked while a finally block runs) must survive
             runs.append(("checked+hooks", {"gc": {"mode": "always", "quarantine": True}}))
+        if key % 128 == 1 or sc.get("force_mc_slice"):
+            # ... and a smaller one in the optimised build collecting at every allocation, under valgrind
+            runs.append(("release+debug_stress_gc@memcheck", None))
         for config, cfg in runs:
             h = ctx.run(config, dict(sc, config=cfg) if cfg else sc)
             stats.inc("executions")
             stats.inc("executions:" + config)
             v = compare(exp, h)
+            if v and config.endswith("@memcheck"):
+                res["scenario"] = dict(res.get("scenario", sc), force_mc_slice=True)
             if v is None and cfg and (h.get("gc") or {}).get("uar_count", 0) > 0:
                 v = {"class": "use-after-reclaim", "msg": "value in flight reclaimed: %s" % json.dumps(h["gc"].get("uar", [])[:2])}
             if v:
